@@ -79,7 +79,17 @@ def _run(binp, args, timeout):
         p = subprocess.run([binp] + args, env=env, stdout=subprocess.PIPE, stderr=subprocess.PIPE, text=True, timeout=timeout)
     except subprocess.TimeoutExpired:
         return dict(found=False, error='finder timeout (possible hang in real code)', hang=True)
-    lines = [l for l in p.stdout.strip().split('\n') if l.startswith('{')]
+    # the finder's answer is the LAST line that is a JSON object with a `found` / `fails` key (the real code under
+    # test may print lines of its own, some of which start with a brace)
+    lines = []
+    for l in p.stdout.strip().split('\n'):
+        if l.startswith('{'):
+            try:
+                v = json.loads(l)
+            except ValueError:
+                continue
+            if isinstance(v, dict) and ('found' in v or 'fails' in v):
+                lines.append(l)
     if not lines:
         if p.returncode < 0:
             # killed by a signal (abort, stack overflow, ..) while running the real code on a sampled input
